@@ -3,6 +3,7 @@ package main
 import (
 	"go.uber.org/zap/verif/props/c03"
 	"go.uber.org/zap/verif/props/c05"
+	"go.uber.org/zap/verif/props/c07"
 	"go.uber.org/zap/verif/props/c13"
 	"go.uber.org/zap/verif/props/c14"
 	"go.uber.org/zap/verif/props/c17"
@@ -18,5 +19,6 @@ func init() {
 	register("C20", "exploration", c20.Run, nil)
 	register("C05", "exploration", c05.Run, nil)
 	register("C14", "exploration", c14.Run, nil)
+	register("C07", "exploration", c07.Run, nil)
 	register("C02", "exploration", encjson.Run02, nil)
 }
